@@ -332,3 +332,10 @@ Proof.
   - apply written_le_cap. destruct Hisz; lia.
   - rewrite !lenN_ok, app_length in *. lia.
 Qed.
+
+(* a stream a LENIENT reader accepts (one bit-packed group announced, only the byte of the single real value
+   present - what impala / older parquet-mr emit at the end of a page): the C loop walks through all 8 values
+   of the group and reads behind the buffer *)
+Lemma unpadded_last_group_overread :
+  hyb_dec false 8 1 [3; 5] = Some ([5], []) /\ c_read_hybrid [3; 5] 8 2 4 4 = OOB.
+Proof. split; vm_compute; reflexivity. Qed.
